@@ -1,6 +1,7 @@
 """C12 - density, natural density, isotope substitution and cell volume are consistent."""
 from contracts import formulas as F
 
+from contracts import wrappers as W
 ID = "C12"
 LEVEL = "proof"
 TRUSTED = ["A1 real arithmetic", "A3 builtins", "A5 attribute resolution", "A6 solvers"]
@@ -8,7 +9,7 @@ EXPLANATION = "see DESIGN.md C12"
 
 
 def units(tier):
-    return [F.U_ION_MASS, F.U_NAT_RATIO, F.U_NATDENS_GET, F.U_NATDENS_SET] + F.U_INIT + F.U_CELL_VOLUME + [F.U_CELL_VOLUME_MISSING] + F.U_VOLUME + [F.U_SUBSTITUTION] + F.U_FORMULA_OF_FORMULA
+    return ([F.U_ION_MASS, F.U_NAT_RATIO, F.U_NATDENS_GET, F.U_NATDENS_SET] + F.U_INIT + F.U_CELL_VOLUME + [F.U_CELL_VOLUME_MISSING] + F.U_VOLUME + [F.U_SUBSTITUTION] + F.U_FORMULA_OF_FORMULA) + W.U_FORMULA_REPLACE
 
 
 def runner_tasks(tier):
